@@ -4,6 +4,7 @@ import (
 	"bytes"
 	"errors"
 	"fmt"
+	"io"
 	"testing"
 
 	"github.com/cloudwego/gopkg/protocol/thrift/base"
@@ -239,6 +240,31 @@ func checkMsg(c MsgCase, cv *cov) (v *evid.Violation) {
 				if d := eqModel(c.Payload.Kind, &after, &before); d != "" {
 					v = evid.Failf("UnmarshalFastMsg(EXCEPTION) modified the caller's struct: %s", d)
 					return
+				}
+				// the exception that is sent may also be a protocol exception: built directly, or wrapping the
+				// error of a failed read (what a server has in hand when decoding the request failed)
+				for k, pe := range []*thrift.ProtocolException{
+					thrift.NewProtocolException(pm.i32, pm.s[0]),
+					thrift.NewProtocolExceptionWithErr(errors.New(pm.s[0])),
+					thrift.NewProtocolExceptionWithErr(fmt.Errorf("read request: %w", io.ErrUnexpectedEOF)),
+				} {
+					wantT, wantM := pe.TypeID(), pe.Msg()
+					msg2, err := thrift.MarshalFastMsg(name, thrift.EXCEPTION, c.Seq, pe)
+					if err != nil {
+						v = evid.Failf("MarshalFastMsg of a protocol exception (variant %d): %v", k, err)
+						return
+					}
+					var sink thrift.ApplicationException
+					_, _, err = thrift.UnmarshalFastMsg(msg2, &sink)
+					var got *thrift.ApplicationException
+					if err == nil || !errors.As(err, &got) {
+						v = evid.Failf("UnmarshalFastMsg of an EXCEPTION message carrying a protocol exception (variant %d) returned err=%v", k, err)
+						return
+					}
+					if got.TypeID() != wantT || got.Msg() != wantM {
+						v = evid.Failf("an EXCEPTION message marshalled from a protocol exception (variant %d: type %d, text %q) arrives as (type %d, text %q)", k, wantT, wantM, got.TypeID(), got.Msg())
+						return
+					}
 				}
 				return
 			}
